@@ -1,8 +1,10 @@
 from vlib.core import Check, Family
+from vlib.genidx import genidx_step   # tie A: the index / hyperslab / util-fn functions regenerated as Lean and proved equal to the hand-written model (gen_eq_*, OW/Props/GenTieIndex.lean; table TIES in vlib/genidx.py)
 
 CHECK = Check(
     "C02",
     props_modules=["OW.Props.C02"],
+    pre_steps=[genidx_step],
     families=[Family("ND", args=["prop=C02"]), Family("NI")],
     level="proof",
     trusted=[
